@@ -7,7 +7,8 @@ from .common import shape_of, gen_cases_corpus, V
 PROP = 'C03'
 LEVEL = 'exploration'
 RULE = ('each case = one accepted source x configs x up to N input scripts (re-drawn until both outcomes of >=90% of the '
-        'executed jz sites were seen); monitors on every tick: pc on instruction start, cell accesses inside their segment, '
+        'executed jz sites were seen), plus near-miss argument-passing programs (run whenever the compiler accepts them); '
+        'monitors on every tick: pc on instruction start, cell accesses inside their segment, '
         'cells keep one type, typed reads push their type, stack values fit their type, stack depth at statement starts '
         '(-g), machine-fault traps, host exceptions; non-trivial = >=20 ticks monitored; distinct = shape hash')
 ASSUMPTIONS = ['decided on concrete runs only (the abstract-interpretation half of the quantifier is outside this technique); '
@@ -59,6 +60,11 @@ def gen_cases(tier, seed):
         cs.append({'base': {'src': 'text', 'text': t, 'seed': i, 'scriptv': {}}, 'k': i, 'nscripts': 1})
     for i, t in enumerate(DEVICE_ARG_FORMS):
         cs.append({'base': {'src': 'text', 'text': t, 'seed': i}, 'k': i, 'nscripts': 3, 'allcfg': True})
+    # near-miss argument passing (every by-reference location form x argument type x parameter type, arrays, records):
+    # whatever the compiler accepts of these is run under the monitors; the mismatching ones are rejected on a correct tree
+    from .. import nearmiss
+    for i, (tag, t, rej, _ln) in enumerate(nearmiss.all_programs()):
+        cs.append({'base': {'src': 'text', 'text': t, 'seed': i}, 'k': i, 'nscripts': 1, 'nearmiss': tag, 'must_reject': rej})
     return cs
 
 
@@ -74,6 +80,10 @@ def run_case(case):
     nontrivial = False
     for cfg in cfgs:
         c = rt.compile_src(text, cfg[0], cfg[1])
+        if case.get('nearmiss'):
+            key = 'nearmiss_rejected' if c.status != 'ok' else ('nearmiss_mismatch_accepted_and_run' if case['must_reject']
+                                                                else 'nearmiss_controls_run')
+            st[key] = st.get(key, 0) + 1
         if c.status != 'ok':
             continue
         mod = rt.load_module(c.modbytes)
